@@ -91,3 +91,19 @@ Definition match_case_ok (k : match_case) : bool :=
 Fixpoint mmism (i : nat) (l : list match_case) : list nat :=
   match l with [] => [] | x :: r => if match_case_ok x then mmism (S i) r else i :: mmism (S i) r end.
 Definition match_mismatches (l : list match_case) : list nat := mmism 0 l.
+
+(* correspondence with the REAL SelectStreamFactoryProtocol over all registered factories (Go map order):
+   verdict code 0 = EAGAIN, 1 = FAILED, 10+i = the i-th protocol of all_protos.  When exactly the matchers in
+   `successes b` accept, the real verdict must be one of them; when none accepts, it is the model's Again/Failed. *)
+Fixpoint proto_index (p : proto) (l : list proto) (i : N) : N :=
+  match l with [] => 99 | q :: r => if proto_eqb p q then i else proto_index p r (i + 1) end.
+Definition sel_case := (bytes * N)%type.
+Definition sel_case_ok (k : sel_case) : bool :=
+  let (b, code) := k in
+  match successes b with
+  | [] => code =? (match select all_protos b with SelAgain => 0 | SelFailed => 1 | SelProto _ => 99 end)
+  | l => existsb (fun p => code =? 10 + proto_index p all_protos 0) l
+  end.
+Fixpoint smism (i : nat) (l : list sel_case) : list nat :=
+  match l with [] => [] | x :: r => if sel_case_ok x then smism (S i) r else i :: smism (S i) r end.
+Definition sel_mismatches (l : list sel_case) : list nat := smism 0 l.
